@@ -22,7 +22,10 @@ VISIBLE = {
     "C17": P(["val", "errs"]),
 }
 
-SPEC_FIELDS = {"C01": ["match", "val"], "C02": ["trace"], "C05": ["stores"], "C14": ["match", "val"], "C11": ["errs"], "C17": ["match", "val", "errs"]}
+# "final": the complete error list Parse returns against the result contract of the specification (Spec.finish; theorem
+# C11_parse_contract), in order, the synthesised no-match error (C12_report_is_declarative) and a recovered panic included
+SPEC_FIELDS = {"C01": ["match", "val"], "C02": ["trace"], "C05": ["stores"], "C14": ["match", "val", "final"], "C11": ["errs", "final"],
+               "C12": ["final"], "C17": ["match", "val", "errs", "final"]}
 
 PROPS = {
     "C01": h1prop("PigeonVerif.Properties.C01", P(["val", "pos", "noerr"]),
